@@ -1,13 +1,24 @@
 import TxdbusModel.Proofs.Wire.SpecRoundtrip
+import TxdbusModel.Proofs.Wire.TopLevel
+import TxdbusModel.Proofs.Wire.Normal
+import TxdbusModel.Proofs.Wire.ValidWF
 /-!
 Property C01 - encoding then decoding any conforming value returns the same value.
 
-`Spec.decode_encode`: the reference codec of Wire/Spec.lean round-trips, for EVERY alignment table
-(positivity of the entries is not even needed), both byte orders, every list of types without empty
-structs (`allWF`; weaker than signature validity), every list of values the encoder accepts (i.e. every
-conforming value: ranges, string-like values without NUL, lengths within the wire limits, variants
-holding a single complete type), every offset, arbitrary bytes before and after.  The decoder reports
-consuming exactly the bytes the encoder produced.
+* `Spec.decode_encode` (mathematics about the reference codec of Wire/Spec.lean): it round-trips for EVERY
+  alignment table (positivity of the entries is not even needed), both byte orders, every list of types
+  without empty structs (`allWF`; implied by signature validity), every list of values the encoder accepts
+  (= every conforming value: ranges, string-like values without NUL, lengths within the wire limits,
+  variants holding a single complete type), every offset, arbitrary bytes before and after; the decoder
+  reports consuming exactly the bytes the encoder produced.
+* `C01_roundtrip` (the property, about the code model of txdbus/marshal.py): for every signature `ts`
+  (rendered as the string the code receives), every conforming list of Python values, both byte orders
+  and every offset, `marshal` produces the bytes `bs` and reports `bs.length`; `unmarshal` applied to
+  those bytes placed at the same offset inside arbitrary surrounding bytes returns the normal form
+  `plain` of the values (tuples / objects with `dbusOrder` as lists, byte arrays as integer lists, typed
+  wrappers as plain values) and reports the same `bs.length`.  It is the composition of the two
+  "Code = Spec" theorems `Code.marshal_eq_spec`, `Code.unmarshal_eq_spec` (Proofs/Wire/TopLevel, shared
+  with C02) and of `Code.fromSpecFields_of_rep` (Proofs/Wire/Normal).
 -/
 namespace Txdbus
 
@@ -22,7 +33,7 @@ theorem Spec.decode_encode (A : AlignTable) (e : Endian) (ts : List Ty) (vs : Li
   omega
 
 /-- The hypotheses are satisfiable by a non-trivial instance: a byte, an array of INT64 at an odd
-offset, and a variant holding a struct (big endian, offset 3, with surrounding bytes). -/
+offset, and a variant holding a struct (big endian, offset 3). -/
 example :
     let ts : List Ty := [.basic .y, .array (.basic .x), .variant]
     let vs : List Val := [.int 7, .array [.int 1, .int (-1)],
@@ -31,6 +42,97 @@ example :
     (Spec.encodeAll Spec.alignTable .big ts vs 3).isSome = true := by
   decide
 
+/-- C01.  Hypotheses, in words: `ts` has no empty struct; `pv` is the `variableList` (a list, a tuple or
+an object with `dbusOrder`) whose items are `items`; the items conform to `ts` and denote the spec values
+`vs`, the descriptors among them being `fdl` in wire order (`Rep`: the Python class each type asks for);
+dict keys are hashable and pairwise distinct; the values are within the limits of the wire format
+(`Spec.encodeAll` succeeds: integer ranges, no NUL in strings, arrays up to 2^26 bytes, variant
+signatures up to 255 characters); `fuel` is at least the nesting depth. -/
+theorem C01_roundtrip (le : Bool) (ts : List Ty) (pv : PyVal) (items : List PyVal) (vs : List Val)
+    (fdl : List PyVal) (off : Nat) (bs pre suf : Bytes) (fuel : Nat)
+    (hts : allWF ts = true)
+    (hitems : Code.topItems pv = .ok items)
+    (hrep : Code.RepFields fdl vs true ts items 0 fdl.length)
+    (hkeys : Code.KeysOKList items)
+    (henc : Spec.encodeAll Spec.alignTable (endianOf le) ts vs off = some bs)
+    (hpre : pre.length = off) (hfuel : depthAll vs ≤ fuel) :
+    Code.marshal fuel (renderAll ts) pv off le (some []) = .ok (bs.length, bs, some fdl) ∧
+    Code.unmarshal fuel (renderAll ts) (pre ++ bs ++ suf) off le (some fdl) =
+      .ok (bs.length, Code.plainList items) := by
+  constructor
+  · have h := Code.marshal_eq_spec le ts pv items vs fdl fdl.length off bs fuel hitems hrep henc hfuel
+    simpa using h
+  · exact Code.unmarshal_eq_spec le (some fdl) ts vs off bs pre suf _ fuel hts henc hpre
+      (Code.fromSpecFields_of_rep fdl vs true ts items 0 fdl.length hrep hkeys) hfuel
+
+/-- The hypotheses of `C01_roundtrip` are satisfiable: signature `yaiva{sb}h`, values
+`[Byte(7), (1, Int32(-1)), 'hi', {'k': True}, 5]` (a wrapper, a tuple for an array, a variant holding a
+string, a dict, a descriptor), little endian, offset 5. -/
+example :
+    let ts : List Ty := [.basic .y, .array (.basic .i), .variant,
+      .array (.dict (.basic .s) (.basic .b)), .basic .h]
+    let items : List PyVal := [.int .byte 7, .tuple [.int .plain 1, .int .int32 (-1)], .str .plain ['h', 'i'],
+      .dict [(.str .plain ['k'], .bool true)], .int .plain 5]
+    let vs : List Val := [.int 7, .array [.int 1, .int (-1)], .variant (.basic .s) (.str [104, 105]),
+      .array [.entry (.str [107]) (.bool true)], .int 0]
+    let fdl : List PyVal := [.int .plain 5]
+    allWF ts = true ∧ Code.topItems (.list items) = .ok items ∧
+      Code.RepFields fdl vs true ts items 0 fdl.length ∧ Code.KeysOKList items ∧
+      (Spec.encodeAll Spec.alignTable (endianOf true) ts vs 5).isSome = true ∧ depthAll vs ≤ 3 := by
+  refine ⟨by decide, rfl, ?_, ?_, by decide, by decide⟩
+  · -- y: Byte(7)
+    refine ⟨_, _, _, _, 0, rfl, rfl, ?_, ?_⟩
+    · simp only [Code.Rep]
+      exact ⟨.y, rfl, Or.inr ⟨by decide, ⟨_, rfl⟩, rfl⟩⟩
+    -- ai: the tuple (1, Int32(-1))
+    refine ⟨_, _, _, _, 0, rfl, rfl, ?_, ?_⟩
+    · simp only [Code.Rep]
+      refine ⟨_, _, rfl, trivial, rfl, ?_⟩
+      refine ⟨_, _, 0, rfl, ?_, ?_⟩
+      · simp only [Code.Rep]; exact ⟨.i, rfl, Or.inr ⟨by decide, ⟨_, rfl⟩, rfl⟩⟩
+      refine ⟨_, _, 0, rfl, ?_, ?_⟩
+      · simp only [Code.Rep]; exact ⟨.i, rfl, Or.inr ⟨by decide, ⟨_, rfl⟩, rfl⟩⟩
+      exact ⟨rfl, rfl⟩
+    -- v: the str 'hi' (inferred signature 's')
+    refine ⟨_, _, _, _, 0, rfl, rfl, ?_, ?_⟩
+    · simp only [Code.Rep]
+      refine ⟨trivial, rfl, ?_, trivial⟩
+      exact ⟨.s, rfl, Or.inr ⟨by decide, ⟨_, _, rfl, by decide⟩, rfl⟩⟩
+    -- a{sb}: the dict {'k': True}
+    refine ⟨_, _, _, _, 0, rfl, rfl, ?_, ?_⟩
+    · simp only [Code.Rep]
+      refine ⟨_, _, rfl, trivial, rfl, ?_⟩
+      refine ⟨_, _, 0, rfl, ?_, ⟨rfl, rfl⟩⟩
+      simp only [Code.Rep]
+      refine ⟨_, _, _, _, 0, rfl, trivial, rfl, ?_, ?_⟩
+      · exact ⟨.s, rfl, Or.inr ⟨by decide, ⟨_, _, rfl, by decide⟩, rfl⟩⟩
+      · exact ⟨.b, rfl, Or.inr ⟨by decide, rfl, rfl⟩⟩
+    -- h: the descriptor 5 (index 0)
+    refine ⟨_, _, _, _, 1, rfl, rfl, ?_, ⟨rfl, rfl, rfl⟩⟩
+    simp only [Code.Rep]
+    exact ⟨.h, rfl, Or.inl ⟨rfl, rfl, rfl, rfl, rfl, rfl⟩⟩
+  · simp only [Code.KeysOKList, Code.KeysOK, Code.KeysOKPairs, Code.plainPairs, Code.plain, and_true, true_and,
+      List.map_cons, List.map_nil]
+    exact ⟨[.str ['k']], rfl, by simp⟩
+
+/-- `C01_roundtrip` for every VALID signature in the sense of the DBus specification (`sigValid`: non-empty
+structs, dict entries only as array elements with a basic key, nesting within 32/32, at most 255
+characters) - the form in which the property is worded. -/
+theorem C01_roundtrip_valid (le : Bool) (ts : List Ty) (pv : PyVal) (items : List PyVal) (vs : List Val)
+    (fdl : List PyVal) (off : Nat) (bs pre suf : Bytes) (fuel : Nat)
+    (hts : sigValid ts = true)
+    (hitems : Code.topItems pv = .ok items)
+    (hrep : Code.RepFields fdl vs true ts items 0 fdl.length)
+    (hkeys : Code.KeysOKList items)
+    (henc : Spec.encodeAll Spec.alignTable (endianOf le) ts vs off = some bs)
+    (hpre : pre.length = off) (hfuel : depthAll vs ≤ fuel) :
+    Code.marshal fuel (renderAll ts) pv off le (some []) = .ok (bs.length, bs, some fdl) ∧
+    Code.unmarshal fuel (renderAll ts) (pre ++ bs ++ suf) off le (some fdl) =
+      .ok (bs.length, Code.plainList items) :=
+  C01_roundtrip le ts pv items vs fdl off bs pre suf fuel (sigValid_allWF ts hts) hitems hrep hkeys henc hpre hfuel
+
 end Txdbus
 
+#print axioms Txdbus.C01_roundtrip_valid
 #print axioms Txdbus.Spec.decode_encode
+#print axioms Txdbus.C01_roundtrip
